@@ -318,6 +318,15 @@ def spec_null_ray_expansion(U, Fs, direction):
 
 
 # ---------------------------------------------------------------------------
+def untens_tree(v):
+    """code-convention value (trailing (1,1,1) axes; lists / tuples / dicts of them) -> spec convention"""
+    if isinstance(v, (list, tuple)):
+        return type(v)(untens_tree(e) for e in v)
+    if isinstance(v, dict):
+        return {k: untens_tree(e) for k, e in v.items()}
+    return None if v is None else untens(v)
+
+
 def compare(code, spec, path=''):
     """list of (component, detail) where code and spec differ."""
     bad = []
